@@ -33,7 +33,35 @@ def generate(rng, seed, index, tier):
     kw["iteration_limit"] = 5000
     kw = gen.quiet_params(kw)
     restart = str(rng.choice(["fresh", "same"])) if rng.random() < 0.25 else None
-    return gen.base_world(seed, ID, index, spec, x0, y0, kw, case={"restart": restart})
+    sform = None
+    import numpy as _np
+
+    if not banded and rng.random() < 0.14 and not _np.any(_np.array(spec["xl"], float) == _np.array(spec["xu"], float)):
+        # (only widening of bounds: the problem stays inside the stated class; worlds with fixed variables are left alone)
+        # callers that write their data with integer literals: integer-dtype bound arrays, an integer-dtype start,
+        # or no start at all (the origin clipped into the box)
+        import numpy as np
+
+        xl, xu = np.array(spec["xl"], float), np.array(spec["xu"], float)
+        for j in range(spec["n"]):
+            if xl[j] == xu[j]:
+                xl[j] = xu[j] = np.round(xl[j])
+            else:
+                lo = np.floor(xl[j]) if np.isfinite(xl[j]) else np.floor(min(x0[j], 0.0) - 4)
+                hi = np.ceil(xu[j]) if np.isfinite(xu[j]) else np.ceil(max(x0[j], 0.0) + 4)
+                xl[j], xu[j] = lo, max(hi, lo + 1)
+        spec["xl"], spec["xu"] = xl, xu
+        spec["int_bounds"] = True
+        u_ = rng.random()
+        if u_ < 0.4:
+            x0 = np.clip(np.zeros(spec["n"]), xl, xu)
+            sform = {"x": "none"}
+        elif u_ < 0.8:
+            x0 = np.clip(np.round(x0), xl, xu)
+            sform = {"x": "int"}
+        else:
+            x0 = np.clip(x0, xl, xu)
+    return gen.base_world(seed, ID, index, spec, x0, y0, kw, case={"restart": restart}, start_form=sform)
 
 
 def case(world):
